@@ -522,6 +522,11 @@ func runProgram(rep *lib.Report, dir, pkg, text string, cases []*caseInfo, skelS
 		if len(ci.rept) > len(ci.gt) {
 			rep.Count("case:reports-more-than-ground-truth(precision, not demanded)")
 		}
+		if ci.nontriv && (ci.id%37 == 3 || ci.id < 2) {
+			rep.Sample(map[string]any{"case": ci.src, "ground_truth_unvalidated_flows": keys2(ci.gt), "reported": keys2(ci.rept),
+				"validator_dropped_edges": ci.dropped, "dropped_not_on_every_path": ci.unjust, "dropped_via_memory_same_data": ci.viaMem,
+				"edge_classes": fmt.Sprint(ci.edgeClass)})
+		}
 		dom := ci.unjust == 0 && ci.unexpl == 0 && ci.viaMem == 0
 		if dom {
 			inDomain++
